@@ -120,7 +120,7 @@ def _table(ch, rs, n, d):
 def run(c, index, tier):
     ch = c.ch
     seen = set()
-    n = ch.integer("w", 4, 36, "n")
+    n = ch.weighted("w", [(2, 2), (3, 2)] + [(k, 1) for k in range(4, 37)], "n")  # two rows: one row in each half
     d = ch.integer("w", 1, 4, "d")
     seed = ch.subseed("w", "data")
     rs = numpy.random.RandomState(seed)
@@ -197,7 +197,7 @@ def run(c, index, tier):
         mi, ma = numpy.asarray(mats[1]), numpy.asarray(mats[2])
         if numpy.any(mi > cor + 1e-12) or numpy.any(cor > ma + 1e-12):
             _viol(c, seen, "min-mean-max", (model_name,), "min <= mean <= max does not hold entrywise: min %r mean %r max %r" % (mi.tolist(), cor.tolist(), ma.tolist()))
-    if model_name in ("linreg", "stateful-linreg"):
+    if model_name in ("linreg", "stateful-linreg") and n >= 4:  # a training half of one row teaches nothing
         # the identity can only be learnt from a training half that varies:
         # columns with repeated values (integer, two-step) may be constant there
         keep = numpy.array([k in ("normal", "constant") or (k == "collinear" and kinds[0] == "normal") for k in kinds])
